@@ -19,6 +19,7 @@ TABLE = {
             ('OpyVerif.Generated.Constants', 'Opy.Gen', r'floatMax_is_sys_max')],
     'C03': [('OpyVerif.Proofs.C03', 'Opy', None),
             ('OpyVerif.Proofs.C03norm', 'Opy', None), ('OpyVerif.Proofs.C03onlooker', 'Opy', None),
+            ('OpyVerif.Proofs.Budget', 'Opy', None), ('OpyVerif.Generated.Budget', 'Opy.Gen', None),
             ('OpyVerif.Generated.Skeletons', 'Opy.Gen', r'skel_\w+_good'),
             ('OpyVerif.Proofs.C18real', 'Opy', r'index_draw_range')],
     'C04': [('OpyVerif.Proofs.C04', 'Opy', r'dump|lookup_appendAttr'),
